@@ -166,6 +166,35 @@ func runC02(r *vhlib.Run) {
 			}
 		}
 	}
+	// dictionary words that END INSIDE a multi-byte UTF-8 character (a transform that walks the word by
+	// characters must stop at the word's end, not run on into the suffix), under every transform
+	{
+		offs, bits := brotli.VerifDictOffsets(), brotli.VerifDictBitSizes()
+		var cutWords [][2]int // (word length, index)
+		for wl := 4; wl <= 24 && len(cutWords) < 40; wl++ {
+			for idx := 0; idx < 1<<uint(bits[wl]); idx++ {
+				w := dict[offs[wl]+idx*wl:][:wl]
+				last := w[wl-1]
+				cut := last >= 0xc0 || (wl >= 2 && w[wl-2] >= 0xe0 && last >= 0x80)
+				if cut {
+					cutWords = append(cutWords, [2]int{wl, idx})
+				}
+			}
+		}
+		for ci, cw := range cutWords {
+			for tid := 0; tid < 121; tid++ {
+				if r.Quick() && (tid+ci)%4 != 0 {
+					continue
+				}
+				brcraft.ForceDictIdx = cw[1]
+				d := brcraft.DictStream(rng, tid, cw[0], dict)
+				brcraft.ForceDictIdx = -1
+				if d != nil {
+					c02Check(r, m, d, "transform-cut-utf8-word")
+				}
+			}
+		}
+	}
 	// every transform x several word lengths
 	nt := 121
 	for tid := 0; tid < nt; tid++ {
